@@ -289,4 +289,5 @@ def main(tier):
     from ..rules import siblings
     siblings.check_offset_rounding(run, fx)
     siblings.check_day_carry(run, fx)
+    siblings.check_offset_sign(run, fx)
     return run.finish(EXPLANATION)
